@@ -1288,7 +1288,16 @@ static char *segment_for(const char *cls, json_t *members, const char *algspell,
 			else if (!strcmp(algspell, "#arr")) json_object_set_new(o, "alg", json_pack("[s]", "HS256"));
 			else if (!strcmp(algspell, "#obj")) json_object_set_new(o, "alg", json_pack("{s:s}", "alg", "HS256"));
 			else if (!strcmp(algspell, "#real")) json_object_set_new(o, "alg", json_real(2.5));
-			else json_object_set_new(o, "alg", json_string(algspell));
+			else if (strstr(algspell, "#0")) {
+				/* "#0" stands for the character U+0000 (dumped as the escape \u0000) */
+				size_t n = strlen(algspell), w = 0; char *tmp = malloc(n + 1);
+				for (size_t r = 0; r < n; r++) {
+					if (algspell[r] == '#' && algspell[r + 1] == '0') { tmp[w++] = 0; r++; }
+					else tmp[w++] = algspell[r];
+				}
+				json_object_set_new(o, "alg", json_stringn_nocheck(tmp, w));
+				free(tmp);
+			} else json_object_set_new(o, "alg", json_string(algspell));
 			json_array_foreach(lst, i, p)
 				json_object_set_new(o, json_string_value(json_array_get(p, 0)), mem_value(p));
 			js = json_dumps(o, (!strcmp(cls, "objws") ? JSON_INDENT(2) : JSON_COMPACT) | JSON_PRESERVE_ORDER);
@@ -1653,6 +1662,16 @@ static void apply_cfg(struct cfgobj *o, int isb, json_t *op, json_t *ev)
 		if (ev) json_object_set_new(ev, "ret", json_integer(ret));
 	} else if (!strcmp(name + 1, "SetCb")) {
 		json_t *prog = json_object_get(op, "prog");
+		if (jint(op, "ctxonly", 0)) {
+			/* setcb(NULL, ctx): the context only; the installed program (if any) stays */
+			ret = LIB(isb ? jwt_builder_setcb(o->obj, NULL, o) : jwt_checker_setcb(o->obj, NULL, o));
+			if (ev) {
+				json_object_set_new(ev, "ret", json_integer(ret));
+				json_object_set_new(ev, "ctxonly", json_integer(1));
+				json_object_set_new(ev, "ctxis", json_integer((isb ? jwt_builder_getctx(o->obj) : jwt_checker_getctx(o->obj)) == (void *)o));
+			}
+			return;
+		}
 		if (o->cb) { json_decref(o->cb); o->cb = NULL; }
 		if (prog && json_is_array(prog)) {
 			o->cb = json_incref(prog);
